@@ -173,9 +173,7 @@ def casadi_function(built, params, sym="SX", compact=0, flags=None, more_out=Fal
 
 
 def call(F, args):
-    out = F(*args)
-    if not isinstance(out, (list, tuple)):
-        out = [out]
+    out = F.call([a if isinstance(a, cs.DM) else cs.DM(np.asarray(a, float)) for a in args])
     return [np.asarray(o, float).ravel() for o in out]
 
 
